@@ -6,11 +6,14 @@
 
 namespace sim {
 
+// byz.cc
+void ByzEdgebreakerBytes(uint64_t seed, int mode, std::vector<uint8_t> *out);
+
 namespace {
 const char *kNames[F_NUM_KINDS] = {"trunc",  "setbyte", "set32", "varint",
                                    "zero",   "dup",     "drop",  "swap",
                                    "splice", "header",  "append", "tamper",
-                                   "flipbit"};
+                                   "flipbit", "byz"};
 
 // Besides the boundary values: counts that make a 32-bit product wrap to a
 // small number, ceil(2^32 / m) for the multipliers decoders use (3 indices per
@@ -240,6 +243,9 @@ int ApplyFaults(const std::vector<FaultOp> &ops, std::vector<uint8_t> *bytes) {
           v.push_back(static_cast<uint8_t>(splitmix64(&s)));
         break;
       }
+      case F_BYZ:
+        ByzEdgebreakerBytes(static_cast<uint64_t>(op.a), static_cast<int>(op.b), &v);
+        break;
       case F_FLIPBIT: {
         if (!len) break;
         int64_t bits = static_cast<int64_t>(len) * 8;
